@@ -458,4 +458,35 @@ theorem onLastState_honest_ok {s : St} {p : Nat} {pst : PeerState} {h : VH} {now
       cases hp'
       rcases hcase with ⟨ps, he⟩ | ⟨rq, he⟩ <;> cases he
 
+/-! ### the header TAU is checked from -/
+
+/-- when the header after the reorg section is the genesis header (number 0) and the end header
+lies after it, TAU is checked from the next header -/
+theorem tauStartIdx_genesis {headers : List VH} {reorg endIdx : Nat} {g : VH}
+    (hg : headers[reorg]? = some g) (h0 : g.number = 0) (hlt : reorg < endIdx) :
+    tauStartIdx headers reorg endIdx = reorg + 1 := by
+  unfold tauStartIdx
+  simp [hg, h0, hlt]
+
+/-- a list that starts with a header of number 0: from index 0 to any later end index, TAU is
+checked from index 1 -/
+theorem tauStartIdx_genesis_cons (g : VH) (rest : List VH) {k : Nat} (h0 : g.number = 0)
+    (hk : 1 ≤ k) : tauStartIdx (g :: rest) 0 k = 1 :=
+  tauStartIdx_genesis (reorg := 0) rfl h0 (by omega)
+
+/-- when the header after the reorg section is not the genesis header, TAU is checked from it (as
+before the repair) -/
+theorem tauStartIdx_of_ne_zero {headers : List VH} {reorg : Nat} (endIdx : Nat) {h : VH}
+    (hh : headers[reorg]? = some h) (h0 : h.number ≠ 0) :
+    tauStartIdx headers reorg endIdx = reorg := by
+  unfold tauStartIdx
+  simp [hh, h0]
+
+/-- … and when the genesis header is the end header itself (nothing after it to start from) -/
+theorem tauStartIdx_of_not_lt (headers : List VH) {reorg endIdx : Nat} (h : ¬ reorg < endIdx) :
+    tauStartIdx headers reorg endIdx = reorg := by
+  rcases tauStartIdx_cases headers reorg endIdx with h' | ⟨h1, -⟩
+  · exact h'
+  · exact absurd h1 h
+
 end Prove
